@@ -1,10 +1,38 @@
 #!/bin/bash
 # Runs every seeded change against every property's quick check (which checks catch which changes).
-# Needs /repo exclusively.  Output: one line per change.
+# usage: matrix.sh [shards]        (default 4; ONLY="C01-m1 C02-r2m1 ..." restricts the changes)
+# Each shard works in its own scratch worktree of /repo (${MATRIX_TMP:-/tmp}/vmatrix-<n>) with its own build
+# directory (harness/target-mx-<n>), so /repo itself is never modified; both are removed at the end.
+# Output: one line per change, "<change> CAUGHT-BY: <properties whose quick check reports a violation>".
 cd "$(dirname "$(readlink -f "$0")")/.." || exit 2
+ROOT="$PWD"
+N="${1:-4}"
+TMP="${MATRIX_TMP:-/tmp}"
+all=()
 for d in seeded/*/; do
     k=$(basename "$d")
     [ -n "${ONLY:-}" ] && [[ ! " $ONLY " =~ " $k " ]] && continue
-    r=$(scripts/try_mutant.sh "$d/patch.diff" 2>&1 | grep "CAUGHT-BY")
-    echo "$k $r"
+    all+=("$k")
 done
+pids=()
+for i in $(seq 0 $((N - 1))); do
+    (
+        wt="$TMP/vmatrix-$i"
+        git -C /repo worktree remove --force "$wt" >/dev/null 2>&1
+        rm -rf "$wt"
+        git -C /repo worktree add --detach "$wt" HEAD >/dev/null 2>&1 || { echo "shard $i: cannot create worktree $wt"; exit 2; }
+        j=0
+        for k in "${all[@]}"; do
+            if [ $((j % N)) -eq "$i" ]; then
+                r=$(MUT_REPO="$wt" MUT_TARGET_DIR="$ROOT/harness/target-mx-$i" scripts/try_mutant.sh "seeded/$k/patch.diff" 2>&1 | grep "CAUGHT-BY")
+                echo "$k $r"
+            fi
+            j=$((j + 1))
+        done
+        git -C /repo worktree remove --force "$wt" >/dev/null 2>&1
+        rm -rf "$wt" "$ROOT/harness/target-mx-$i"
+    ) &
+    pids+=($!)
+done
+for p in "${pids[@]}"; do wait "$p"; done
+git -C /repo worktree prune
